@@ -415,6 +415,13 @@ func (s *Store[K, V]) setShardWithoutLock(shard *Shard[K, V], hash uint64, key K
 		if old != expire {
 			result.reschedule = true
 		}
+	} else if ok {
+		// the previous value has expired and is only waiting to be collected:
+		// the new value must not inherit its deadline
+		if old := exist.expire.Load(); old != 0 && old <= s.timerwheel.clock.NowNano() {
+			exist.expire.Store(0)
+			result.reschedule = true
+		}
 	}
 
 	if ok {
@@ -579,7 +586,7 @@ func (s *Store[K, V]) removeEntry(entry *Entry[K, V], reason RemoveReason) {
 	if reason == EXPIRED {
 		// entry might updated already
 		// update expire filed are protected by shard mutex
-		if entry.expire.Load() > s.timerwheel.clock.NowNano() {
+		if expire := entry.expire.Load(); expire == 0 || expire > s.timerwheel.clock.NowNano() {
 			// still resident: it must not be flagged removed, otherwise the
 			// pending update event (re-schedule, cost change) and all later
 			// events for it would be ignored
@@ -720,7 +727,12 @@ func (s *Store[K, V]) sinkWrite(item WriteBufItem[K, V]) {
 		// left behind, where it would wait for a whole rotation
 		expired := false
 		if item.rechedule {
-			if expire := entry.expire.Load(); expire != 0 && expire <= s.timerwheel.clock.NowNano() {
+			if expire := entry.expire.Load(); expire == 0 {
+				// the deadline was dropped: the entry leaves the wheel
+				if entry.meta.wheelPrev != nil {
+					s.timerwheel.deschedule(entry)
+				}
+			} else if expire <= s.timerwheel.clock.NowNano() {
 				expired = true
 			} else {
 				s.timerwheel.schedule(entry)
